@@ -3,7 +3,7 @@
    plain components. *)
 From LC Require Import Lib.Bytes Lib.Lex Lib.Fields Lib.PathM Gen.Consts
   Model.MountInfo Model.FsTree Model.Kernel Model.Layers Cases.Verdict Cases.LC Cases.C16
-  Proofs.PathP Proofs.C16FsP.
+  Proofs.PathP Proofs.C16FsP Proofs.LegalNameP.
 Close Scope string_scope.
 Open Scope list_scope.
 
@@ -161,36 +161,18 @@ Proof.
 Qed.
 
 (* ------------------------------------------------------------------ layer names *)
-Definition legal_char (ch : ascii) : bool := is_alnum ch || (bn ch =? 95)%N || (bn ch =? 45)%N.
-
-Lemma legal_rest_chars s : legal_rest s = true -> Forall (fun ch => legal_char ch = true) s.
-Proof.
-  induction s as [|ch r IH]; cbn [legal_rest]; intros H; constructor.
-  - apply andb_true_iff in H as [H _]. exact H.
-  - apply andb_true_iff in H as [_ H]. apply IH, H.
-Qed.
-
-Lemma legal_name_chars n : legal_name n = true -> Forall (fun ch => legal_char ch = true) n.
-Proof.
-  destruct n as [|ch r]; cbn [legal_name]; intros H; constructor.
-  - apply andb_true_iff in H as [H _]. unfold legal_char. apply orb_true_iff in H as [H|H]; rewrite H.
-    + reflexivity.
-    + rewrite orb_true_r. reflexivity.
-  - apply andb_true_iff in H as [_ H]. apply legal_rest_chars, H.
-Qed.
-
-Lemma legal_char_sl : legal_char sl = false.
-Proof. vm_compute. reflexivity. Qed.
-Lemma legal_char_dot : legal_char (nb 46) = false.
-Proof. vm_compute. reflexivity. Qed.
+(* every byte of a legal name is a name byte (LegalNameP): an ASCII letter, digit, '_', '-', or
+   a byte >= 128 of a two-byte letter; in particular neither '/' nor '.' *)
+Lemma legal_name_chars n : legal_name n = true -> Forall (fun ch => name_byte ch = true) n.
+Proof. apply legal_name_bytes. Qed.
 
 Lemma legal_plain n : legal_name n = true -> n <> [] -> plain n.
 Proof.
   intros Hl Hne. pose proof (legal_name_chars n Hl) as Hc. rewrite Forall_forall in Hc.
   unfold plain. split; [exact Hne|]. split; [|split].
-  - intros ->. specialize (Hc (nb 46) (or_introl eq_refl)). rewrite legal_char_dot in Hc. discriminate.
-  - intros ->. specialize (Hc (nb 46) (or_introl eq_refl)). rewrite legal_char_dot in Hc. discriminate.
-  - intros Hin. specialize (Hc sl Hin). rewrite legal_char_sl in Hc. discriminate.
+  - intros ->. specialize (Hc (nb 46) (or_introl eq_refl)). rewrite name_byte_dot in Hc. discriminate.
+  - intros ->. specialize (Hc (nb 46) (or_introl eq_refl)). rewrite name_byte_dot in Hc. discriminate.
+  - intros Hin. specialize (Hc sl Hin). change sl with (nb 47) in Hc. rewrite name_byte_sl in Hc. discriminate.
 Qed.
 
 (* ------------------------------------------------------------------ the configuration facts of C16 *)
